@@ -452,6 +452,7 @@ func sections(r *vk.Run) []section {
 		sameItemSection(), setitemBufferSection(), structEqualSection(), preGorgonSection(), hostSection())
 	secs = append(secs, layoutSections(r)...)
 	secs = append(secs, budgetSections(r)...)
+	secs = append(secs, reuseSections(r)...)
 	// cheap and diverse sections first, the big sweeps last (the deadline, if
 	// it ever strikes, then cuts the most redundant part).
 	order := map[string]int{"nullary": 0, "limits": 1, "unary": 2, "memcpy": 3, "big-values": 4, "try-nests(depth2)": 5}
@@ -462,6 +463,11 @@ func sections(r *vk.Run) []section {
 		switch {
 		case strings.HasPrefix(s.name, "layout-"), strings.HasPrefix(s.name, "budget-"):
 			return 5
+		case strings.HasPrefix(s.name, "reuse-"):
+			if s.name == "reuse-triples" && r.Thorough() {
+				return 9
+			}
+			return 2
 		case strings.HasPrefix(s.name, "compound"):
 			if r.Thorough() {
 				return 10 // len 4: the largest section of the thorough tier goes last
